@@ -185,7 +185,7 @@ Section Commit.
       destruct (handle_changes cf (znth 0 aidx c) (changes_of h A last c) b1 s) as [[b2 s2]| |] eqn:E2; try discriminate.
       injection E as <- <-. unfold changes_of in E2.
       assert (Hb1t : b_tick b1 = tick_of h c) by reflexivity.
-      destruct (paths_step cf A last c val (znth 0 aidx c) (h_paths h) b1 s b2 s2 paths_nodup) as (Q1 & Q2 & Q3 & Q4 & Q5); auto.
+      destruct (paths_step cf A last c val (znth 0 aidx c) (h_paths h) b1 s b2 s2 paths_nodup) as (Q1 & Q2 & Q3 & Q4 & Q5 & Q6 & Q7); auto.
       { intros pl Hin. apply exists_mono. }
       rewrite Hb1t in *.
       set (t := pack cf (znth 0 aidx c) (tick_of h c)) in *.
